@@ -51,7 +51,10 @@ EVIDENCE = dict(
     level='proof',
     rule='one case = (backend, operation plans of 2-4 clients over 1-2 lock names, schedule at primitive granularity) -> the real '
          'lock objects run in lock-step; recorded: every primitive with its response, every returned value, the final store; '
-         'non-trivial = at least two clients touched the same name; distinct = distinct (backend, executed histories, schedule)',
+         'non-trivial = at least two clients touched the same name; distinct = distinct (backend, executed histories, schedule); '
+         'plus, for the keep-alive lock with its helper process running: one case = one simulated-clock scenario of harness/c19.py in '
+         'which the holder calls fail() (a wake-up of the real monitor loop before / between / after its two primitives), recorded: order '
+         'of the primitives, refreshes, end of the helper, what other clients see',
     explanation='Coq theorems over the primitive-level lock programs for all clients / histories / interleavings + trace validation '
                 'of the model against the real lock classes under a lock-step scheduler + linearizability search on the observed histories',
 )
